@@ -337,7 +337,7 @@ class Expander:
                 continue
             s2 = seen | {id(d1), id(d2)}
             a = self._x(d1.value, d1.node, depth + 1, s2, stop)
-            b = self._x(d2.value, d2.node, depth + 1, s2, stop)
+            b = self._x(d2.value, d2.node, depth + 1, seen | {id(d2)}, stop)      # may mention the previous value (d1)
             this = ast.Name(id=var, ctx=ast.Load())
             t = test if pol else ast.UnaryOp(op=ast.Not(), operand=test)
             self.expanded_paths.add(var)
